@@ -1,8 +1,8 @@
 CONSTANTS
   RATE = 8
   WIDTH = 12
-  Disabled = {"trace_cap"}
-  UseEnvConfigs = FALSE
+  Mutants = {{"trace_cap"}}
+  ConfigSet = "one"
 INIT Init
 NEXT Next
 CHECK_DEADLOCK FALSE
